@@ -12,8 +12,9 @@ Obligations:
             to this event and keeps every other capture
   complete  an Accept successor yields Complete with the stack = old stack ++ [event] and the captures above; a Normal one yields Continue
   nomatch   if no successor accepts the event the run is returned untouched (NoMatch; Invalidate under strict contiguity)
-Since every stack entry is put there by this step, the stack of any reported match lists, in step order, events that had their step's type
-and satisfied their step's filter against the earlier captures.
+Every stack entry after the first is put there by this step (the first by try_start_run_shared, outside the encoding), so from the second
+step on the stack of any reported match lists, in step order, events that had their step's type and satisfied their step's filter against
+the earlier captures.
 """
 import itertools
 import re
